@@ -5,7 +5,7 @@ pub mod track_distance;
 use crate::prelude::TrackBuilder;
 use crate::track::notify::{ChangeNotifier, NoopNotifier};
 use crate::track::{
-    Feature, Observation, ObservationAttributes, ObservationMetric, ObservationMetricOk, Track,
+    Feature, ObservationAttributes, ObservationMetric, ObservationMetricOk, Track,
     TrackAttributes, TrackStatus,
 };
 use crate::Errors;
@@ -538,20 +538,16 @@ where
         #[allow(clippy::significant_drop_in_scrutinee)]
         match tracks.get_mut(&track_id) {
             None => {
-                let mut t = Track {
-                    notifier: self.notifier.clone(),
-                    attributes: self.default_attributes.clone(),
-                    track_id,
-                    observations: HashMap::from([(
+                // the missing track is created exactly as the builder would create it
+                let t = self
+                    .new_track(track_id)
+                    .observation((
                         feature_class,
-                        vec![Observation(feature_attribute, feature)],
-                    )]),
-                    metric: self.metric.clone(),
-                    merge_history: vec![track_id],
-                };
-                if let Some(attributes_update) = &attributes_update {
-                    t.update_attributes(attributes_update)?;
-                }
+                        feature_attribute,
+                        feature,
+                        attributes_update,
+                    ))
+                    .build()?;
 
                 tracks.insert(track_id, t);
             }
